@@ -857,3 +857,10 @@ canary('c19-deadline-before-loop', 'C19', 'crates/edp_client/src/connection.rs',
                 let mut len_bytes = [0u8; 4];
                 tokio::time::timeout_at(deadline, read_half.read_exact(&mut len_bytes))""", 'deadline-outside-loop')
 canary('c19-route-key-no-creation', 'C19', NODE, """                        let pid_str = format!("{}.{}.{}", pid.id, pid.serial, pid.creation);""", """                        let pid_str = format!("{}.{}.{}", pid.id, pid.serial, 0);""", 'route-rpc-key')
+canary('c20-contains-anchor-last', 'C20', 'crates/edp_elixir_terms/src/range.rs', "                && (self.first as i128 - value as i128) % (-(self.step as i128)) == 0", "                && (value as i128 - self.last as i128) % (-(self.step as i128)) == 0", 'anchor-last')
+canary('c20-component-helper-truncates', 'C20', 'crates/edp_elixir_terms/src/date_time.rs', """        let month = u8::try_from(
+            map.get(&OwnedTerm::Atom(Atom::new("month")))?
+                .as_integer()?,
+        )
+        .ok()?;""", """        let month = small_component(map.get(&OwnedTerm::Atom(Atom::new("month")))?.as_integer()?)?;""", 'no-truncation',
+       more=[('crates/edp_elixir_terms/src/date_time.rs', "/// Represents an Elixir Date (`~D[2025-12-25]`).", "fn small_component(value: i64) -> Option<u8> {\n    if value < 0 {\n        return None;\n    }\n    Some(value as u8)\n}\n\n/// Represents an Elixir Date (`~D[2025-12-25]`).")])
